@@ -541,7 +541,7 @@ def run_check(prop: Prop, tier: str, seed: int, replay=None) -> int:
                 viol.append((case, obs, problem))
 
     # 5. correspondence: model vs implementation, evaluated in Coq
-    mism, corr_errors = [], []
+    mism, corr_errors, modelled = [], [], 0
     if not impl_error and cases:
         deps_rc = 0
         if prop.EXTRA_TARGETS:
@@ -551,8 +551,15 @@ def run_check(prop: Prop, tier: str, seed: int, replay=None) -> int:
                 corr_errors.append('model does not build: ' + deps_out[-2000:])
         if not deps_rc:
             try:
-                terms = [prop.coq_case(c, o) for c, o in zip(cases, observations)]
+                terms, index = [], []
+                for k, (c, o) in enumerate(zip(cases, observations)):
+                    term = prop.coq_case(c, o)
+                    if term is not None:  # None = implementation-only case (no model counterpart)
+                        terms.append(term)
+                        index.append(k)
                 mism, errs = coq_mismatches(pid, prop.IMPORTS, prop.CASE_TYPE, prop.CHECK_FUN, terms)
+                mism = [index[i] for i in mism]
+                modelled = len(terms)
                 corr_errors += errs
             except Exception:  # pylint: disable=broad-except
                 corr_errors.append('case printer failed: ' + traceback.format_exc())
@@ -628,7 +635,8 @@ def run_check(prop: Prop, tier: str, seed: int, replay=None) -> int:
         'distinct_nontrivial': len(distinct),
         'rule': prop.RULE,
         'samples': [{'case': c, 'observed': o} for c, o in list(zip(cases, observations))[:3]],
-        'traces_validated_against_impl': len(cases) - len(mism) if not corr_errors else 0,
+        'traces_validated_against_impl': modelled - len(mism) if not corr_errors else 0,
+        'cases_with_model_counterpart': modelled,
         'correspondence_mismatches': len(mism),
         'oracle_violations_new': len(viol),
         'known_findings_listed': [f['signature'] for f in known],
